@@ -138,6 +138,24 @@ func (s c09Shape) build(salts map[int]int) *Program {
 	if s.alias2 {
 		indeg[1]++
 	}
+	// a file counts as reached along several paths when the number of import paths from main to it exceeds one
+	// (an importer that is itself reached twice passes that on)
+	{
+		paths := map[int]int{0: 1}
+		for i := 0; i < s.n; i++ { // edges only lead to higher indices
+			for _, t := range s.edges[i] {
+				paths[t] += paths[i]
+			}
+			if s.alias2 && i == 0 {
+				paths[1] += paths[0]
+			}
+		}
+		for k, v := range paths {
+			if v > 1 && indeg[k] < 2 {
+				indeg[k] = 2
+			}
+		}
+	}
 	p := &Program{}
 	relTo := func(from, to int) string {
 		// import paths are relative to the importing file's directory
@@ -242,8 +260,128 @@ func linkMonitor(script string) []string {
 	return problems
 }
 
+// c09CallGraphProgram: 2-5 files; every file defines 4-8 functions (public and private, some of them never
+// called); a function calls functions defined before it in its file and public functions of the files its file
+// imports; top-level code of main and of singly imported files calls some of them. Every function prints its
+// name, so the output is the trace of the calls; the number of calls per program is bounded while generating.
+func c09CallGraphProgram(r *rand.Rand) *Program {
+	n := 2 + r.Intn(4)
+	imports := map[int][]int{}
+	indeg := map[int]int{} // number of import paths from main (top-level code only where it is 1)
+	for j := 1; j < n; j++ {
+		first := r.Intn(j)
+		for i := 0; i < j; i++ {
+			if i == first || r.Intn(3) == 0 {
+				imports[i] = append(imports[i], j)
+			}
+		}
+	}
+	indeg[0] = 1
+	for i := 0; i < n; i++ {
+		for _, t := range imports[i] {
+			indeg[t] += indeg[i]
+		}
+	}
+	type fdef struct {
+		name string
+		pub  bool
+		cost int
+	}
+	funcs := make([][]fdef, n)
+	files := make([]*File, n)
+	for k := n - 1; k >= 0; k-- {
+		f := &File{Name: fmt.Sprintf("mod%d.tsh", k)}
+		if k == 0 {
+			f.Name = "main.tsh"
+		}
+		for _, t := range imports[k] {
+			f.Imports = append(f.Imports, Import{Alias: fmt.Sprintf("m%d", t), Path: fmt.Sprintf("mod%d.tsh", t)})
+		}
+		st := []Stmt{def("hits", il(0))}
+		nf := 4 + r.Intn(5)
+		for i := 0; i < nf; i++ {
+			fd := fdef{pub: r.Intn(3) != 0, cost: 1}
+			if fd.pub {
+				fd.name = fmt.Sprintf("F%d", i)
+			} else {
+				fd.name = fmt.Sprintf("g%d", i)
+			}
+			body := []Stmt{pr(sl(fmt.Sprintf("%d.%s", k, fd.name))), IncDec{"hits", true}}
+			sum := Expr(il(int64(k*10 + i)))
+			// own functions defined earlier
+			for tries := r.Intn(3); tries > 0 && len(funcs[k]) > 0; tries-- {
+				cal := funcs[k][r.Intn(len(funcs[k]))]
+				if fd.cost+cal.cost > 40 {
+					continue
+				}
+				fd.cost += cal.cost
+				if r.Intn(2) == 0 {
+					sum = bin("+", sum, call(cal.name))
+				} else {
+					body = append(body, ExprStmt{call(cal.name)})
+				}
+			}
+			// public functions of imported files
+			for tries := r.Intn(3); tries > 0 && len(imports[k]) > 0; tries-- {
+				t := imports[k][r.Intn(len(imports[k]))]
+				pubs := []fdef{}
+				for _, g := range funcs[t] {
+					if g.pub {
+						pubs = append(pubs, g)
+					}
+				}
+				if len(pubs) == 0 {
+					continue
+				}
+				cal := pubs[r.Intn(len(pubs))]
+				if fd.cost+cal.cost > 40 {
+					continue
+				}
+				fd.cost += cal.cost
+				e := Call{Alias: fmt.Sprintf("m%d", t), Fn: cal.name}
+				switch r.Intn(3) {
+				case 0:
+					sum = bin("+", sum, e)
+				case 1:
+					body = append(body, ExprStmt{e})
+				default:
+					body = append(body, ifs(cmp(">", e, il(-1)), pr(sl("ok"))))
+				}
+			}
+			body = append(body, ret(sum))
+			st = append(st, fn(fd.name, nil, []Type{TInt}, body...))
+			funcs[k] = append(funcs[k], fd)
+			// top-level code between the definitions (main and singly imported files only)
+			if (k == 0 || indeg[k] == 1) && r.Intn(4) == 0 {
+				st = append(st, def(fmt.Sprintf("got%d", i), call(fd.name)), pr(sl(fmt.Sprintf("top %d", k)), vr(fmt.Sprintf("got%d", i)), vr("hits")))
+			}
+		}
+		if k == 0 {
+			budget := 0
+			for _, t := range imports[0] {
+				for _, g := range funcs[t] {
+					if g.pub && r.Intn(2) == 0 && budget+g.cost < 150 {
+						budget += g.cost
+						st = append(st, pr(sl("main"), Call{Alias: fmt.Sprintf("m%d", t), Fn: g.name}))
+					}
+				}
+			}
+			for _, g := range funcs[0] {
+				if r.Intn(2) == 0 && budget+g.cost < 200 {
+					budget += g.cost
+					st = append(st, pr(sl("own"), call(g.name)))
+				}
+			}
+			st = append(st, pr(sl("end"), vr("hits")))
+		}
+		f.Stmts = st
+		files[k] = f
+	}
+	return &Program{Files: files}
+}
+
 func checkC09(c *Check) {
-	c.Rule = "multi-file programs over 13 import-graph shapes (single, chains of 3-5, fan-out 2-3 with top-level calls in every import, diamonds, one file under two aliases, std + local, local importing std) whose files share names (Count, secret, helper, Get) and exercise public/private functions, globals read and written by their own file's functions, cross-file calls and top-level code; each imported file is additionally rendered in variants (a trailing comment) until every first hex digit 0-f of its content-hash prefix has been executed, plus mined contents whose digest starts with 00, has only decimal digits, only letters, or a zero in second place; every statement form that writes a global (=, op=, ++/--, multi-assignment, element write) runs inside the imported files; negative cases (private call, missing/unknown/duplicate alias, unknown function, missing file); oracle = reference interpreter with module semantics + a text monitor on the emitted Bash (every invoked function defined earlier, nothing defined twice) + real bash run. Non-trivial = at least one cross-file call executed; distinct = SHA-256 of all files"
+	c.Rule = "multi-file programs over 13 import-graph shapes (single, chains of 3-5, fan-out 2-3 with top-level calls in every import, diamonds, one file under two aliases, std + local, local importing std) whose files share names (Count, secret, helper, Get) and exercise public/private functions, globals read and written by their own file's functions, cross-file calls and top-level code; each imported file is additionally rendered in variants (a trailing comment) until every first hex digit 0-f of its content-hash prefix has been executed, plus mined contents whose digest starts with 00, has only decimal digits, only letters, or a zero in second place; every statement form that writes a global (=, op=, ++/--, multi-assignment, element write) runs inside the imported files; random acyclic import graphs over 3-6 files; random call graphs across 2-5 files (4-8 functions per file, calls to earlier own functions and to imported public functions from function bodies and from top-level code, bounded call counts, every function printing its name); negative cases (private call, missing/unknown/duplicate alias, unknown function, missing file); oracle = reference interpreter with module semantics + a text monitor on the emitted Bash (every invoked function defined earlier, nothing defined twice) + real bash run. Non-trivial = at least one cross-file call executed; distinct = SHA-256 of all files"
 	c.Assumptions = []string{"files reached along several import paths contain only definitions with pure initialisers (whether their top-level effects run once is not stated)", "std strings functions modelled by Go's strings in the reference"}
 	runProbes(c, bashProbeJudge)
 	nontrivial := func(r Result) bool { return len(r.Stdout) > 0 }
@@ -300,6 +438,50 @@ func checkC09(c *Check) {
 			}
 		}
 	}
+	// random acyclic import graphs over 3-6 files with the module content above (every file beyond main is reached;
+	// files reached along several paths are the definition-only kind)
+	nShapes := c.Pick(20, 400)
+	for k := 0; k < nShapes; k++ {
+		rr := rand.New(rand.NewSource(c.Seed*9000017 + int64(k)))
+		n := 3 + rr.Intn(4)
+		sh := c09Shape{name: fmt.Sprintf("random-%d", k), n: n, edges: map[int][]int{}, std: map[int]bool{}}
+		for j := 1; j < n; j++ {
+			// one importer among the files before j, further importers with probability 1/3 each
+			first := rr.Intn(j)
+			for i := 0; i < j; i++ {
+				if i == first || rr.Intn(3) == 0 {
+					sh.edges[i] = append(sh.edges[i], j)
+				}
+			}
+		}
+		for i := 0; i < n; i++ {
+			if rr.Intn(5) == 0 {
+				sh.std[i] = true
+			}
+		}
+		if sh.std[1] && len(sh.edges[0]) > 0 && sh.edges[0][0] != 1 {
+			sh.std[1] = false // main prints m1.Starts only when it imports file 1 itself
+		}
+		hasM1 := false
+		for _, t := range sh.edges[0] {
+			if t == 1 {
+				hasM1 = true
+			}
+		}
+		if !hasM1 {
+			sh.std[1] = false
+		}
+		sh.alias2 = hasM1 && rr.Intn(4) == 0
+		cases = append(cases, mcase{"shape/" + sh.name, sh.build(map[int]int{1 + rr.Intn(n-1): rr.Intn(50)})})
+	}
+	// random call graphs across files: which functions survive the removal of unused ones is decided by a walk
+	// over calls inside functions, calls at top level and calls across import boundaries
+	nGraphs := c.Pick(60, 3000)
+	for k := 0; k < nGraphs; k++ {
+		cases = append(cases, mcase{fmt.Sprintf("call-graph/%d", k), c09CallGraphProgram(rand.New(rand.NewSource(c.Seed*9000029 + int64(k))))})
+	}
+	c.Extra["random_import_graphs"] = nShapes
+	c.Extra["random_call_graphs"] = nGraphs
 	c.Extra["hash_first_digits_covered"] = len(digitsSeen)
 	c.Extra["hash_classes_covered"] = sortedKeys(map[string]string(func() map[string]string { m := map[string]string{}; for k := range hashClassesSeen { m[k] = "" }; return m }()))
 	viol := 0
